@@ -135,7 +135,9 @@ IRRELEVANT_TIES = {
     # the table's consistency does not depend on which table the helper's parsers are handed, nor on Isotope's approximate equality
     "C12": {"element": r"^(ce_parse_formula|ce_parse_element|cc_parse_with|cc_from_str|cc_parse|isotope_eq|isotope_partial_cmp)$"},
     # of baffling.rs only the peak-building tail (charge conversion) concerns C10
-    "C10": {"brain": r"^(?!dist_isotopic_variants$).*$"},
+    "C10": {"brain": r"^(?!dist_isotopic_variants$).*$", "convolution": r".*", "peak": r".*"},
+    # of peak.rs the convolution's output tail uses normalize / ignore_below only
+    "C11": {"peak": r"^(?!normalize$|ignore_below$|total$|scale_by$).*$"},
     # C04 is about counts only: the mass computation and its cache are C02's / C06's business
     "C04": {"comp": r"^[vm]_(calc_mass|mass|fmass|has_mass_cached)$", "props": r"^(l[vma]|a|r)_(calc_mass|mass|fmass|has_mass_cached)$"},
 }
